@@ -55,8 +55,23 @@ def gen_full_spec(rng, n):
     sup = full if rng.random() < 0.5 else rng.sample(full, max(2, len(full) - rng.randint(1, 3)))
     ws = [rng.choice([1, 2, 3, 5, 8]) for _ in sup] if rng.random() < 0.5 else [rng.random() + 0.05 for _ in sup]
     names = rng.sample(G.NAMES, n) if rng.random() < 0.3 else None
-    return {'n': n, 'klass': rng.choice(['str', 'int']), 'alph': alph, 'outcomes': sup, 'pmf': [w / sum(ws) for w in ws], 'ss_kind': 'default', 'ss': None,
-            'base': rng.choice(['linear', 'linear', 2, 'e']), 'sparse': rng.random() < 0.6, 'trim': True, 'names': names}
+    pmf = [w / sum(ws) for w in ws]
+    trim = True
+    if rng.random() < 0.4:
+        # a stored zero-probability outcome carrying a symbol that never occurs with positive probability, not the largest of its alphabet:
+        # the alphabets of the distribution and of its trimmed working copy differ
+        v = rng.randrange(n)
+        extra = [r for r in range(max(alph[v])) if r not in alph[v]]
+        if extra:
+            r = rng.choice(extra)
+            o = list(rng.choice(sup))
+            o[v] = r
+            alph = [sorted(a + [r]) if i == v else a for i, a in enumerate(alph)]
+            sup = sup + [o]
+            pmf = pmf + [0.0]
+            trim = False
+    return {'n': n, 'klass': rng.choice(['str', 'int']), 'alph': alph, 'outcomes': sup, 'pmf': pmf, 'ss_kind': 'default', 'ss': None,
+            'base': rng.choice(['linear', 'linear', 2, 'e']), 'sparse': (rng.random() < 0.6) and trim, 'trim': trim, 'names': names}
 
 
 def generate(rng, tier):
